@@ -32,7 +32,6 @@ pub struct Annotation {
 /// strum's `AsRefStr`/Display names of the synthetic tags (TRUSTED; only used to say what `Display for Tag` prints)
 pub uninterp spec fn synth_name(st: SyntheticTag) -> Seq<char>;
 /// `impl Display for Tag` (src/task/tag.rs, hashed): a user tag prints its string, a synthetic tag its name
-//@watch C19 :: src/task/tag.rs :: impl fmt::Display for Tag
 impl DisplayText for Tag {
     open spec fn display_text(&self) -> Seq<char> { match self.0 { TagInner::User(s) => s@, TagInner::Synthetic(st) => synth_name(st) } }
 }
@@ -172,7 +171,6 @@ impl Task {
     }
 //@end
     // the synthetic tags consult the dependency map through lazy iterators (outside reach): TRUSTED, hashed
-//@watch C19 :: src/task/task.rs :: impl Task :: fn has_synthetic_tag
     #[verifier::external_body]
     fn has_synthetic_tag(&self, synth: &SyntheticTag) -> (r: bool) { unimplemented!() }
 
